@@ -16,7 +16,7 @@ Extraction "model.ml"
   component_truncate append_logic_and append_logic_xor
   peval padd psub pmul pscale ptrim ruffini dft resize distribute_powers powers
   fft ifft coset_fft coset_ifft domain_log domain_size domain_gen size_inv
-  parallel_butterfly butterfly_range vanishing_eval vanishing_over_coset lagrange_all interp_eval batch_inversion fpow_nat
+  parallel_butterfly butterfly_range coset_gen vanishing_eval vanishing_over_coset lagrange_all interp_eval batch_inversion fpow_nat
   commit commit_guard mkOpening batch_all batch_check_u aggregate_witness flatten srs_powers
   direct_route_ok compressed_route_ok max_constraints
   transcript_new append_message append_u64 challenge_bytes keccak_f_bytes
